@@ -1230,6 +1230,9 @@ HLPwrite(accrec_t *access_rec, int32 length, const void *datap)
     /* validate length and file records */
     if (length <= 0)
         HGOTO_ERROR(DFE_RANGE, FAIL);
+    /* the element's logical length and the position are 32-bit signed: refuse a write that would end beyond 2^31-1 */
+    if (length > INT32_MAX - access_rec->posn)
+        HGOTO_ERROR(DFE_RANGE, FAIL);
     if (BADFREC(file_rec))
         HGOTO_ERROR(DFE_INTERNAL, FAIL);
 
